@@ -1,5 +1,93 @@
-"""Thorough tier: mutant corpus self-test (filled in later)."""
+"""Checker self-validation (DESIGN.md section 7): mutant corpus.
+
+Each patch under /verif/selftest/mutants is applied to a scratch copy of /repo's current working
+tree (outside /repo and /verif, removed afterwards); the property's rules must report exactly the
+expected rule instances (mutants) or stay silent (behaviour-preserving refactors)."""
+import json
+import os
+import shutil
+import subprocess
+import sys
+import tempfile
+from concurrent.futures import ThreadPoolExecutor
+
+from .build import VERIF, REPO, InfraError
+from .engine import evaluate
+
+MUT_DIR = os.path.join(VERIF, "selftest", "mutants")
+EXPECT = os.path.join(VERIF, "selftest", "expectations.json")
 
 
-def run_selftest(prop):
+def _scratch_copy():
+    d = tempfile.mkdtemp(prefix="vpselftest-")
+    dst = os.path.join(d, "repo")
+    os.makedirs(dst)
+    for item in ("src", "Cargo.toml", "Cargo.lock", "build.rs", "benches", "assets"):
+        p = os.path.join(REPO, item)
+        if os.path.isdir(p):
+            shutil.copytree(p, os.path.join(dst, item))
+        elif os.path.exists(p):
+            shutil.copy2(p, os.path.join(dst, item))
+    return d, dst
+
+
+def run_one(prop, rules, name, spec):
+    d, dst = _scratch_copy()
+    try:
+        patch = os.path.join(MUT_DIR, name)
+        r = subprocess.run(["patch", "-p1", "--no-backup-if-mismatch", "-s", "-f", "-i", patch], cwd=dst,
+                           stdout=subprocess.PIPE, stderr=subprocess.STDOUT, text=True)
+        if r.returncode != 0:
+            return name, "skipped", "patch does not apply to the current tree"
+        try:
+            cx, prog = evaluate(prop, "selftest", rules, "default", repo=dst)
+        except InfraError as e:
+            return name, "skipped", "mutant does not compile: %s" % str(e)[-300:]
+        failed = sorted(set(o.fullkey() for o in cx.obligations if not o.ok))
+        exp = spec.get("expect", [])
+        if spec.get("kind") == "refactor":
+            if failed:
+                return name, "FAIL", "refactor raised alarms: %s" % failed
+            return name, "ok", "silent on behaviour-preserving refactor"
+        missing = [k for k in exp if k not in failed]
+        if missing:
+            return name, "FAIL", "expected %s, got %s" % (exp, failed)
+        extra = [k for k in failed if k not in exp and k not in spec.get("also_ok", [])]
+        return name, "ok", "fired %s%s" % (exp, (" (+%s)" % extra) if extra else "")
+    finally:
+        shutil.rmtree(d, ignore_errors=True)
+
+
+def run_selftest(prop, rules=None):
+    from .registry import PROPERTIES
+    rules = rules or PROPERTIES[prop]["rules"]
+    if not os.path.exists(EXPECT):
+        print("selftest: no expectations file")
+        return 0
+    with open(EXPECT) as f:
+        exp = json.load(f)
+    mine = {k: v for k, v in exp.items() if v["property"] == prop}
+    if not mine:
+        print("selftest property=%s: no mutants registered" % prop)
+        return 0
+    code = 0
+    results = []
+    with ThreadPoolExecutor(max_workers=int(os.environ.get("VPCHECK_JOBS", "6"))) as ex:
+        futs = [ex.submit(run_one, prop, rules, name, spec) for name, spec in sorted(mine.items())]
+        for fu in futs:
+            results.append(fu.result())
+    for name, status, msg in results:
+        print("  selftest %-55s %s  %s" % (name, status, msg))
+        if status == "FAIL":
+            code = 1
+    n_ok = sum(1 for r in results if r[1] == "ok")
+    print("selftest property=%s mutants=%d ok=%d skipped=%d failed=%d" % (
+        prop, len(results), n_ok, sum(1 for r in results if r[1] == "skipped"), sum(1 for r in results if r[1] == "FAIL")))
+    if code:
+        print("SELFTEST-FAILURE property=%s (the checker no longer detects a registered mutant)" % prop)
+        return 3
     return 0
+
+
+if __name__ == "__main__":
+    sys.exit(run_selftest(sys.argv[1]))
